@@ -432,7 +432,7 @@ template<typename T, typename C, typename A>
 template<typename S>
 std::pair<req_compactor<T, C, A>, size_t> req_compactor<T, C, A>::deserialize(const void* bytes, size_t size,
     const S& serde, const C& comparator, const A& allocator, bool sorted, bool hra) {
-  ensure_minimum_memory(size, 8);
+  ensure_minimum_memory(size, sizeof(uint64_t) + sizeof(float) + 2 * sizeof(uint8_t) + 2 + sizeof(uint32_t)); // state .. num_items
   const char* ptr = static_cast<const char*>(bytes);
   const char* end_ptr = static_cast<const char*>(bytes) + size;
 
